@@ -418,6 +418,7 @@ def run(ctx):
         bad = [r for r in results if 'harness_error' in r]
         ctx.count('generated modules that do not parse (skipped)', len(bad))
         package_cases(ctx, tmp)
+        package_collection(ctx, tmp)
     finally:
         shutil.rmtree(tmp, ignore_errors=True)
     ctx.add_rule('%d generated module sources (def / async def / class / decorators incl. property, staticmethod, classmethod, x.setter, x.deleter, call and attribute '
@@ -428,8 +429,105 @@ def run(ctx):
                         'os.walk order is not compared (sets of paths)']
 
 
+# ---------------------------------------------------------------------------
+# collecting a whole package: every doctest of every parseable module exactly once under its own module, nothing for a
+# file that is not valid Python for this interpreter (a Python 2 script, a template), wherever it stands in the walk
+# ---------------------------------------------------------------------------
+BROKEN_FILES = ["print 'a python 2 script'\n", "def f(:\n    pass\n", "{{ cookiecutter.template }}\n", "x = = 1\n", "def g():\nreturn 1\n"]
+
+
+def collect_package(root, style):
+    from xdoctest import core
+    got = {}
+    with warnings.catch_warnings(), contextlib.redirect_stdout(io.StringIO()), contextlib.redirect_stderr(io.StringIO()):
+        warnings.simplefilter('ignore')
+        for ex in core.parse_doctestables(root, style=style, analysis='static'):
+            key = (os.path.relpath(ex.modpath, root), ex.callname, ex.num)
+            got[key] = got.get(key, 0) + 1
+    return got
+
+
+def package_files(seed):
+    import random
+    rng = random.Random(seed)
+    names = ['__init__', 'alpha', 'beta', 'legacy_script', 'mid_broken', 'omega', 'zz_template']
+    files, expect = {}, {}
+    for name in names:
+        if name != '__init__' and rng.random() < 0.25:
+            continue
+        if name in ('legacy_script', 'mid_broken', 'zz_template') and rng.random() < 0.8:
+            files[name + '.py'] = rng.choice(BROKEN_FILES)
+            continue
+        nfun = rng.randint(0, 2) if name != '__init__' else rng.randint(0, 1)
+        src = []
+        for j in range(nfun):
+            src += ['def %s_f%d():' % (name.strip('_'), j), '    """', '    Example:', '        >>> print(%d)' % j, '        %d' % j, '    """', '']
+            expect[(name + '.py', '%s_f%d' % (name.strip('_'), j), 0)] = 1
+        files[name + '.py'] = '\n'.join(src) + '\n'
+    return files, expect
+
+
+def package_collection(ctx, tmp):
+    n = 60 if ctx.tier == 'quick' else 600
+    nb = 0
+    for i in range(n):
+        seed = ctx.seed * 7919 + i
+        files, expect = package_files(seed)
+        root = os.path.join(tmp, 'pkgc%d' % i, 'xdverif_c07_pkg%d' % i)
+        os.makedirs(root)
+        for fn, src in files.items():
+            open(os.path.join(root, fn), 'w').write(src)
+        nb += sum(1 for src in files.values() if src in BROKEN_FILES)
+        for style in ('auto', 'google', 'freeform'):
+            ctx.evaluations += 1
+            ctx.nontrivial += 1 if len(expect) > 1 else 0
+            try:
+                got = collect_package(root, style)
+            except BaseException as e:      # noqa
+                got = {('raised', type(e).__name__, str(e)[:100]): 1}
+            if got != expect:
+                extra = sorted(k for k in got if got[k] != expect.get(k, 0))
+                missing = sorted(k for k in expect if k not in got)
+                if len([v for v in ctx.violations if v['kind'] == 'package-collection']) < 4:
+                    ctx.violation('package-collection', {
+                        'what': 'collecting the package in %s style: collected a wrong number of times / not in the package %r; not collected %r' % (style, extra[:6], missing[:6]),
+                        'files': files, 'style': style, 'pkg_seed': seed, 'theorem_or_correspondence': 'C07: each doctest of the package exactly once, nothing else'}, True)
+    ctx.count('package_collections', n * 3)
+    ctx.count('package_files_that_do_not_parse', nb)
+
+
+def replay_package(d, path):
+    tmp = tempfile.mkdtemp(prefix='xdverif_c07r_')
+    try:
+        files, expect = package_files(d['pkg_seed'])
+        if files != d['files']:
+            files = d['files']
+            print('(the generator has changed since this replay was written: only duplicates and broken files are judged)')
+            expect = None
+        root = os.path.join(tmp, 'xdverif_c07_pkgr')
+        os.makedirs(root)
+        for fn, src in files.items():
+            open(os.path.join(root, fn), 'w').write(src)
+        try:
+            got = collect_package(root, d['style'])
+        except BaseException as e:      # noqa
+            got = {('raised', type(e).__name__, str(e)[:100]): 1}
+        print('collected %r' % sorted(got.items()))
+        bad = (got != expect) if expect is not None else any(v != 1 or files.get(k[0]) in BROKEN_FILES for k, v in got.items())
+        if bad:
+            print('expected %r' % (sorted(expect.items()) if expect is not None else 'each once, none from a broken file'))
+            print('VIOLATION property=C07 replay=%s' % path)
+            return 1
+        print('each doctest of the package collected exactly once, nothing from files that do not parse')
+        return 0
+    finally:
+        shutil.rmtree(tmp, ignore_errors=True)
+
+
 def replay(path):
     d = json.load(open(path))
+    if d.get('kind') == 'package-collection':
+        return replay_package(d, path)
     if 'module_source' in d:
         tmp = tempfile.mkdtemp(prefix='xdverif_c07r_')
         try:
